@@ -13,7 +13,7 @@
 use geo::{Centroid, Coord, LineString};
 use routee_compass::app::compass::config::builders::InputPluginBuilder;
 use routee_compass::app::compass::config::frontier_model::vehicle_restrictions::{
-    vehicle_parameters::VehicleParameters, vehicle_restriction_builder::vehicle_restriction_lookup_from_file,
+    vehicle_parameters::VehicleParameters, vehicle_restriction::VehicleRestriction,
 };
 use routee_compass::plugin::input::default::edge_rtree::edge_rtree_input_plugin_builder::EdgeRtreeInputPluginBuilder;
 use routee_compass::plugin::input::default::vertex_rtree::builder::VertexRTreeBuilder;
@@ -482,6 +482,12 @@ fn vertex_boundary_cases() -> Vec<VCase> {
             // destination farther than the origin: origin within, destination decides
             out.push(vcase("tolerance_factor_destination", net.clone(), Some((tol_for(d_d, u, f), Some(u))), query_of(Some(o), Some(dd), &[("name", json!("t"))])));
         }
+        // tolerance a little below / above the true distance (exact SI factor into the unit): 1 % and 2 % off
+        // are outside the band of the unit constants, so a wrong conversion factor of that size is decided by S
+        for f in [0.99, 0.999, 1.001, 1.01, 1.02] {
+            out.push(vcase("tolerance_factor_fine_origin", net.clone(), Some((tol_for(d_o, u, f), Some(u))), query_of(Some(o), None, &[])));
+            out.push(vcase("tolerance_factor_fine_destination", net.clone(), Some((tol_for(d_d, u, f), Some(u))), query_of(Some(o), Some(dd), &[])));
+        }
         // the boundary itself: tolerance = the distance as the code converts it (matched: d <= tol)
         let exact = DistanceUnit::Meters.convert(&Distance::new(d_o), &unit_of(u)).as_f64();
         out.push(vcase("tolerance_boundary_exact", net.clone(), Some((exact.to_bits(), Some(u))), query_of(Some(o), None, &[])));
@@ -833,8 +839,6 @@ fn run_edge_case(st: &mut Stream, dir: &Path, c: &ECase) {
         params.insert("road_class_parser".into(), json!({ "mapping": m }));
     }
     let plugin = EdgeRtreeInputPluginBuilder {}.build(&Value::Object(params)).unwrap_or_else(|e| panic!("edge plugin build: {}", e));
-    // the vehicle-restriction verdict per edge, through the real loader and the real `valid`
-    let restr = c.restrictions.as_ref().map(|_| vehicle_restriction_lookup_from_file(&PathBuf::from(&rp)).unwrap());
     for p in [&gp, &cp, &rp] {
         let _ = std::fs::remove_file(p);
     }
@@ -846,12 +850,7 @@ fn run_edge_case(st: &mut Stream, dir: &Path, c: &ECase) {
     let mut heads = vec![];
     for q in &queries {
         let vparams = VehicleParameters::from_query(q).ok();
-        let truck: Vec<bool> = (0..c.edges.len())
-            .map(|i| match (&restr, &vparams) {
-                (Some(rs), Some(vp)) => rs.get(&EdgeId(i)).map(|l| l.iter().all(|x| x.valid(vp))).unwrap_or(true),
-                _ => true,
-            })
-            .collect();
+        let truck = truck_table(c, q);
         // road-class verdict on the harness side (only to know the admissible set for ties / oracle table;
         // the model computes its own from the query)
         let rcq: Option<Option<Vec<u8>>> = harness_read_query(&c.mapping, q);
@@ -888,7 +887,7 @@ fn run_edge_case(st: &mut Stream, dir: &Path, c: &ECase) {
             .unwrap_or(0);
         st.count(&format!("outcome:{}", head.split(':').next().unwrap()));
         st.count(&format!("skipped_inadmissible_nearer:{}", match skipped { 0..=3 => skipped.to_string(), 4..=15 => "4-15".into(), 16..=63 => "16-63".into(), _ => "64+".into() }));
-        st.count(&format!("filters:{}{}", if c.classes.is_some() && q.get("road_classes").is_some() { "class" } else { "" }, if restr.is_some() && vparams.is_some() { "+vehicle" } else { "" }));
+        st.count(&format!("filters:{}{}", if c.classes.is_some() && q.get("road_classes").is_some() { "class" } else { "" }, if c.restrictions.is_some() && vparams.is_some() { "+vehicle" } else { "" }));
         for v in &an.verdicts {
             st.count(&format!("verdict:{}", v));
         }
@@ -915,6 +914,10 @@ fn run_edge_case(st: &mut Stream, dir: &Path, c: &ECase) {
     st.count(&format!("candidates:{}", bucket(c.edges.len())));
     st.count(&format!("queries_on_one_instance:{}", queries.len()));
     st.count(&format!("tolerance:{}", tol_label(&c.tol_bits, &c.unit)));
+    if let Some(rows) = &c.restrictions {
+        let mx = (0..c.edges.len()).map(|i| rows.iter().filter(|r| r.0 == i).count()).max().unwrap_or(0);
+        st.count(&format!("max_restriction_rows_per_edge:{}", mx.min(4)));
+    }
     // edges whose reference point lies outside the box of their two end points (hairpins, rings, loops)
     let outside = c.edges.iter().filter(|l| {
         let (a, b, m) = (l[0], l[l.len() - 1], centroid16(l));
@@ -928,6 +931,23 @@ fn run_edge_case(st: &mut Stream, dir: &Path, c: &ECase) {
         st.mark_nontrivial(&desc.to_string());
     }
     st.case(terms, vec![line], desc);
+}
+
+/// the vehicle-restriction verdict per edge under the query's vehicle parameters: an edge is admissible iff the
+/// vehicle passes EVERY restriction row written for it (rows in any order, anywhere in the file). Each row is turned
+/// into a VehicleRestriction the way RestrictionRow::to_restriction does and judged by the real
+/// VehicleRestriction::valid; the restriction-file LOADER of the plugin is deliberately not used here.
+fn truck_table(c: &ECase, q: &Value) -> Vec<bool> {
+    let vparams = VehicleParameters::from_query(q).ok();
+    (0..c.edges.len())
+        .map(|i| match (&c.restrictions, &vparams) {
+            (Some(rows), Some(vp)) => rows.iter().filter(|(e, _, _, _)| *e == i).all(|(_, name, value, unit)| {
+                let r: VehicleRestriction = serde_json::from_value(json!({ name.as_str(): (value, unit) })).unwrap_or_else(|e| panic!("restriction row: {}", e));
+                r.valid(vp)
+            }),
+            _ => true,
+        })
+        .collect()
 }
 
 /// RoadClassParser::read_query, harness-side copy used only to compute the admissible set for the
@@ -1053,6 +1073,29 @@ fn edge_boundary_cases() -> Vec<ECase> {
     out.push(ecase("vehicle_filter_bad_parameters", line.clone(), None, Some(restr.clone()), None, with(q0.clone(), "vehicle_parameters", json!({"height": [4.0, "meters"]}))));
     out.push(ecase("vehicle_filter_no_parameters", line.clone(), None, Some(restr.clone()), None, q0.clone()));
     out.push(ecase("vehicle_filter_no_file", line.clone(), None, None, None, with(q0.clone(), "vehicle_parameters", vehicle(9.0, 90000.0))));
+    // several restriction rows per edge: an edge is admissible iff the vehicle passes EVERY row, wherever the
+    // excluding row stands (first / middle / last for its edge, rows of one edge not contiguous in the file)
+    {
+        let truck = with(q0.clone(), "vehicle_parameters", vehicle(4.1, 20000.0));
+        let h0 = (0usize, "maximum_height", 3.5, "meters");
+        let w0 = (0usize, "maximum_total_weight", 40.0, "tons");
+        let l0 = (0usize, "maximum_length", 100.0, "feet");
+        let h1 = (1usize, "maximum_height", 4.0, "meters");
+        let w1 = (1usize, "maximum_width", 10.0, "feet");
+        let x3 = (3usize, "maximum_trailer_length", 20.0, "meters");
+        for rows in [
+            vec![h0, w0],                 // excluding row first (the seeded loader keeps only the last row)
+            vec![w0, h0],                 // ... last
+            vec![w0, h0, l0],             // ... in the middle
+            vec![h0, x3, w0],             // rows of edge 0 not contiguous
+            vec![h0, h1, w1, w0, l0],     // edges 0 and 1 excluded by their first rows
+            vec![w1, h1, x3, l0, h0, w0], // edge 1 excluded by its second row, edge 0 by a middle row
+            vec![l0, w0, w1, x3],         // nothing binding: edge 0
+        ] {
+            out.push(ecase("multi_row_restrictions", line.clone(), None, Some(rows.clone()), None, truck.clone()));
+            out.push(ecase("multi_row_restrictions", line.clone(), Some(classes.clone()), Some(rows.clone()), Some((tol_for(hav(o, (-1672, 632)).unwrap(), "kilometers", 3.0), Some("kilometers"))), with(truck.clone(), "road_classes", json!([1, 2, 3, 4, 5]))));
+        }
+    }
     // both filters
     out.push(ecase("both_filters", line.clone(), Some(vec![1, 1, 2, 2, 1]), Some(restr.clone()), None, with(with(q0.clone(), "road_classes", json!([1])), "vehicle_parameters", vehicle(4.0, 5000.0))));
     // road classes as strings
@@ -1081,6 +1124,11 @@ fn edge_boundary_cases() -> Vec<ECase> {
         for f in [0.5, 0.999, 1.001, 2.0] {
             out.push(ecase("tolerance_factor_admissible", line.clone(), Some(classes.clone()), None, Some((tol_for(d_adm, u, f), Some(u))), q_rc.clone()));
             out.push(ecase("tolerance_factor_nearest", line.clone(), None, None, Some((tol_for(d_near, u, f), Some(u))), query_of(Some(o), Some((-1677, 633)), &[])));
+        }
+        for f in [0.99, 0.999, 1.001, 1.01, 1.02] {
+            out.push(ecase("tolerance_factor_fine_origin", line.clone(), Some(classes.clone()), None, Some((tol_for(d_adm, u, f), Some(u))), q_rc.clone()));
+            // origin exactly on edge 1, the destination decides
+            out.push(ecase("tolerance_factor_fine_destination", line.clone(), None, None, Some((tol_for(d_near, u, f), Some(u))), query_of(Some((-1676, 632)), Some(o), &[])));
         }
         // boundary: the edge matcher accepts at the tolerance
         let exact = DistanceUnit::Meters.convert(&Distance::new(d_near), &unit_of(u)).as_f64();
@@ -1298,6 +1346,17 @@ fn random_crowded_case(r: &mut Rng) -> ECase {
     c
 }
 
+/// a restriction row that the vehicles of this harness (width 2.5 m, total length 60 ft, trailer 48 ft, <= 30 t,
+/// 5 axles) always pass
+fn nonbinding_row(r: &mut Rng, e: usize) -> (usize, String, f64, String) {
+    match r.below(4) {
+        0 => (e, "maximum_width".into(), 10.0, "feet".into()),
+        1 => (e, "maximum_length".into(), 100.0, "feet".into()),
+        2 => (e, "maximum_trailer_length".into(), 20.0, "meters".into()),
+        _ => (e, "maximum_total_weight".into(), 80.0, "tons".into()),
+    }
+}
+
 fn random_edge_case(r: &mut Rng) -> ECase {
     if r.chance(1, 20) {
         return random_crowded_case(r);
@@ -1343,9 +1402,20 @@ fn random_edge_case(r: &mut Rng) -> ECase {
                 _ => rs.push((*i, "maximum_weight_per_axle".into(), 2000.0, "pounds".into())),
             }
         }
-        for _ in 0..r.below(3) {
-            rs.push((r.below(n as u64) as usize, "maximum_width".into(), 10.0, "feet".into())); // never binding
+        // 0-2 further rows per restricted edge and a few on other edges, none of them binding for the vehicle;
+        // the file order is random: the excluding row of an edge comes first / in the middle / last, and the rows
+        // of one edge are not contiguous
+        let restricted: Vec<usize> = rs.iter().map(|x| x.0).collect();
+        for e in restricted {
+            for _ in 0..r.below(3) {
+                rs.push(nonbinding_row(r, e));
+            }
         }
+        for _ in 0..r.below(4) {
+            let e = r.below(n as u64) as usize;
+            rs.push(nonbinding_row(r, e));
+        }
+        r.shuffle(&mut rs);
         restrictions = Some(rs);
         if r.chance(5, 6) {
             query = with(query, "vehicle_parameters", vehicle(4.0, 15000.0));
@@ -1405,35 +1475,17 @@ fn random_edge_case(r: &mut Rng) -> ECase {
 }
 /// admissible candidates of a case (real vehicle functions, real road class parser)
 fn admissible_set(c: &ECase, q: &Value) -> Vec<(u64, P)> {
-    let dir = std::env::temp_dir().join(format!("c16_adm_{}", std::process::id()));
-    std::fs::create_dir_all(&dir).unwrap();
-    let rp = dir.join("r.csv");
-    let restr = c.restrictions.as_ref().map(|rs| {
-        let mut s = String::from("edge_id,restriction_name,restriction_value,restriction_unit\n");
-        for (e, n, v, u) in rs {
-            s.push_str(&format!("{},{},{},{}\n", e, n, v, u));
-        }
-        std::fs::write(&rp, s).unwrap();
-        let l = vehicle_restriction_lookup_from_file(&rp).unwrap();
-        let _ = std::fs::remove_file(&rp);
-        l
-    });
-    let _ = std::fs::remove_dir(&dir);
-    let vparams = VehicleParameters::from_query(q).ok();
+    let truck = truck_table(c, q);
     let rcq = harness_read_query(&c.mapping, q);
     c.edges
         .iter()
         .enumerate()
         .filter(|(i, _)| {
-            let t = match (&restr, &vparams) {
-                (Some(rs), Some(vp)) => rs.get(&EdgeId(*i)).map(|l| l.iter().all(|x| x.valid(vp))).unwrap_or(true),
-                _ => true,
-            };
             let vc = match (&rcq, &c.classes) {
                 (Some(Some(s)), Some(cl)) => s.contains(&cl[*i]),
                 _ => true,
             };
-            t && vc
+            truck[*i] && vc
         })
         .map(|(i, l)| (i as u64, centroid16(l)))
         .collect()
